@@ -2,7 +2,7 @@
 import random
 from vlib.tok import f64, s as S, lst
 from checks.storegen import World, PLAIN, NAMES, BLOCK_KINDS, REL_OF
-from checks import C01, C04, C05, C06, C08, C13, C14, C15, C17, C19, C20
+from checks import C01, C04, C05, C06, C07, C08, C13, C14, C15, C17, C19, C20
 ID = 'C16'
 FLAVOUR = {'quick': 'asan', 'thorough': 'asan'}
 NEEDS_PLAIN = True      # the memcheck cases (meta valgrind) run on the plain build under valgrind
@@ -153,7 +153,7 @@ def cases(tier, seed, rng):
     # the inputs of the retrieval, array and reject families under the sanitizers, with a seed of their own
     sub = 'quick'
     for mod, frac in ((C05, 0.3), (C06, 0.25), (C17, 0.15), (C01, 0.3), (C08, 0.12), (C13, 0.04), (C14, 0.08), (C15, 0.1), (C19, 0.15), (C20, 0.15)):
-        cs = mod.cases(sub if tier == 'quick' else 'thorough', seed + 1600, random.Random(seed * 104729 + hash(mod.ID) % 1000))
+        cs = mod.cases(sub if tier == 'quick' else 'thorough', seed + 1600, random.Random(seed * 104729 + int(mod.ID[1:])))
         k = max(3, int(len(cs) * frac)) if tier == 'quick' else max(3, int(len(cs) * 0.25))
         # evenly spread over the family's case list (which is grouped by generator), the last case included
         step = max(1, len(cs) // k)
@@ -161,6 +161,12 @@ def cases(tier, seed, rng):
         for c in pick:
             c.origin = 'abuse:' + mod.ID + ':' + c.origin
         out += pick
+    # the index conversions at the edge of the number format (intervals +inf / denormal, offsets and positions whose difference
+    # overflows: the index estimate is inf or NaN) and on a range axis without ticks, under the sanitizers (float-cast-overflow included)
+    for c in C07.cases('quick', seed + 1607, random.Random(seed * 104729 + 7)):
+        if c.origin in ('gen:sampled-extreme', 'gen:range-empty'):
+            c.origin = 'abuse:C07:' + c.origin
+            out.append(c)
     # token-level abuse of the programs of every family (checks/abuse_dims.py): harness only, survival only
     from checks import abuse_dims
     ab = abuse_dims.cases(tier, seed + 1616, random.Random(seed * 31337 + 16))
@@ -200,6 +206,20 @@ def wrong_class_reads(tier, seed):
                 else: L.append('%s %s [%d] [0] %d' % (op if op.startswith('da_rd') else 'da_rd', rdt, cnt, cnt))
         c = Case(L, 'gen:wrong-class-reads'); c.meta['no_driver'] = True
         out.append(c)
+    # a calibrated array asked for EVERY element type (the calibrated values are doubles converted for the caller: whatever the
+    # element size of the requested type, nothing may be written beyond `count` elements of it), whole and in part, raw and typed
+    for cal in (['da_origin ' + f64(1.5)], ['da_poly ' + lst([f64(1.0), f64(2.0)])], ['da_origin ' + f64(0.5), 'da_poly ' + lst([f64(0.0), f64(1.0), f64(0.5)])]):
+        for dt in (('Double', 'Int16', 'Bool') if tier == 'quick' else C01.A.DTYPES):
+            if dt == 'String': continue
+            n = rng.choice([3, 5, 9])
+            L = ['da_new %s [%d] none none' % (dt, n)] + cal
+            for rdt in C01.A.DTYPES:
+                L.append('da_rd %s [%d] [0] %d' % (rdt, n, n))
+                L.append('da_rd %s [1] [%d] 1' % (rdt, n - 1))
+                if rdt not in ('String', 'Bool'): L.append('da_one vec %s [%d] [0]' % (rdt, n))
+                L.append('da_one rd3 %s [1] [0]' % rdt)
+            c = Case(L, 'gen:calibrated-read-as-every-type'); c.meta['no_driver'] = True
+            out.append(c)
     return out
 
 def frame_count_abuse(tier, seed):
